@@ -1,4 +1,5 @@
 """C08 match selects, binds and returns like Python's match statement."""
+from hv import core  # noqa: E402
 import ast
 import itertools
 import multiprocessing as mp
@@ -120,7 +121,7 @@ def run(chk):
     ITEMS[:] = items
     import gc; gc.collect(); gc.freeze()  # forked workers then touch (copy) far fewer pages
     with mp.get_context("fork").Pool(chk.jobs) as pool:
-        res = pool.map(check, range(len(items)), chunksize=32)
+        res = core.pmap(pool, check, range(len(items)), chunksize=32)
     seen = set()
     for desc, ok, detail in res:
         if desc in seen:
